@@ -10,10 +10,15 @@ build() {
   ( go run ./cmd/vrewrite -repo /repo -hooks "$VERIF_ROOT/hooks" -out "$VERIF_ROOT/.build/overlay" ) >.build/rewrite.log 2>&1 || { echo "HARNESS-ERROR rewrite"; cat .build/rewrite.log; exit 2; }
   go build -tags verif -overlay .build/overlay.json -o .build/vcheck ./cmd/vcheck >.build/build.log 2>&1 || { echo "HARNESS-ERROR build"; tail -50 .build/build.log; exit 2; }
 }
+# the free-running -race pass needs its own binary (checks with concurrent bodies only)
+build_race() {
+  go build -race -tags verif -overlay .build/overlay.json -o .build/vcheck-race ./cmd/vcheck >.build/build-race.log 2>&1 || { echo "HARNESS-ERROR build (race)"; tail -50 .build/build-race.log; exit 2; }
+}
 case "${1:-}" in
   build) build ;;
   setup)
     build
+    build_race
     ./.build/vcheck selftest || exit 2
     ;;
   replay)
@@ -22,6 +27,7 @@ case "${1:-}" in
     ;;
   C[0-9][0-9])
     build
+    case "$1" in C12|C20) build_race ;; esac
     tier="${2:-${VERIF_TIER:-quick}}"
     exec ./.build/vcheck check "$1" --tier "$tier"
     ;;
